@@ -49,7 +49,7 @@ META = {
 }
 GENERATORS = (paramtable.gen_paramtable,)
 REQ = ['Base.ParamRec', 'Model.RangeReader', 'Gen.ParamTable']
-LAYER_TAGS = ('min', 'max', 'below-min', 'above-max', 'non-member', 'fraction', 'far-above')
+LAYER_TAGS = ('min', 'max', 'below-min', 'above-max', 'non-member', 'fraction', 'far-above', 'member')
 
 # configuration families: an example of the repository per family, one key overridden per case
 FAMILIES = [('standard', 'g', 'tests/examples/example1.txt'), ('add-ons', 'g', 'tests/examples/example1_addons.txt'),
@@ -142,7 +142,7 @@ def reader_layer(ctx):
     model = live(ctx)[0]
     cases = []
     for cls, o, name, p, i, r in numeric_params(ctx):
-        for tag, s, v in rp.probes(r, ctx.rng):
+        for tag, s, v in rp.probes(r, ctx.rng, extra=ctx.n(0, 8)):
             cases.append(mk('reader', cls, name, i, tag, s, v, rp.observe_reader(p, name, s, model)))
     judge(ctx, 'reader', cases, compare_model=True)
     return cases
@@ -153,7 +153,7 @@ def module_layer(ctx):
     pkgs = {c.__name__: (pkg, c) for pkg, c in paramtable.module_classes()}
     cases = []
     for cls, o, name, p, i, r in numeric_params(ctx):
-        for tag, s, v in rp.probes(r, ctx.rng):
+        for tag, s, v in rp.probes(r, ctx.rng, extra=ctx.n(0, 3)):
             if tag in LAYER_TAGS or not ctx.quick and not tag.startswith('sentinel'):
                 cases.append(mk('module', cls, name, i, tag, s, v, rp.observe_module(*pkgs[cls], model, name, s)))
     judge(ctx, 'module', cases, compare_model=False)
@@ -325,6 +325,6 @@ def replay(ctx, data):
         ok = not kernel(ctx, 'replay-spec', 'rcase_spec', [c])
         print(f'{layer:7s} {k[1]} = {s!r}: implementation: {rp.show(o)}' + (f' | Coq model agrees: {agrees}' if agrees is not None else '')
               + f' | spec_ok: {ok}')
-        bad += (not ok) if layer == inp.get('layer', layer) or inp.get('layer') == 'client' else 0
+        bad += not ok
     print('property', 'VIOLATED' if bad else 'holds', 'on this input')
     return 1 if bad else 0
